@@ -565,11 +565,13 @@ example : GoodScripts 1 .A [[.deliver 10], [.wait, .pending]] := by
 
 
 /-- **C09.scan_after_drain_skeleton** — tie to the source (regenerated): `pending()` drains the
-self-pipe and only then hands out the scanner; `poll_signal` itself never drains
+self-pipe and only then hands out the scanner - over the whole slot table, built from nothing but the shared
+slots (no cached or narrowed range; the scanner's loop bound is part of `C09_scan_shape_current`);
+`poll_signal` itself never drains
 (a drain between the callback's "readable" and the scan would be harmless, one after the scan
 would lose the wake-up for signals that arrived in between). -/
 theorem C09_scan_after_drain_skeleton :
-    skelOf backendFile "pending" = ["flush"] ∧ ¬ (skelOf backendFile "poll_signal").contains "flush" ∧
+    skelOf backendFile "pending" = ["flush", "scanner.all"] ∧ ¬ (skelOf backendFile "poll_signal").contains "flush" ∧
     skelOf backendFile "poll_pending" = ["is_closed", "has_signals", "pending"] := by decide
 
 /-- **C09.frontend_skeleton** — tie to the source (regenerated) of the glue between the modelled back
@@ -625,5 +627,18 @@ theorem C09_scan_shape_current : staysOnHit = true := scan_shape_current
 theorem C09_scan_advancing_on_hit_strands :
     (drain false 10 { done := [], rest := [[], [7, 8], []] }).1 = [7] ∧
     (drain true 10 { done := [], rest := [[], [7, 8], []] }).1 = [7, 8] := scan_advancing_on_hit_strands
+
+/-- a scanner over a narrowed range - the first `limit` slots instead of the whole table - hands out exactly the
+records queued in those slots (so the full table, `limit ≥` its length, gives everything: the theorem above) ... -/
+theorem C09_narrowed_scan_hands_out_prefix (fuel limit : Nat) (rest : List (List Nat))
+    (hf : (queued { done := [], rest := rest.take limit }).length < fuel) :
+    (drain true fuel { done := [], rest := rest.take limit }).1 = (rest.take limit).flatten := by
+  rw [C09_scan_hands_out_everything fuel _ hf]; rfl
+
+/-- ... and therefore leaves behind whatever is queued above the limit: the bound of the source's loop is the
+table's length (`bound.slots` in `staysOnHit`), not something computed elsewhere -/
+theorem C09_narrowed_scan_strands :
+    (drain true 10 { done := [], rest := ([[], [7], [], [9]] : List (List Nat)).take 2 }).1 = [7] ∧
+    (drain true 10 { done := [], rest := [[], [7], [], [9]] }).1 = [7, 9] := by decide
 
 end SigHook.Scan
